@@ -40,6 +40,7 @@ type c12CloseCase struct {
 	Consumed bool   `json:"consumed_before_close,omitempty"`
 	Pkgs     int    `json:"packages_in_response,omitempty"`
 	Final    bool   `json:"response_ends_with_final_done,omitempty"`
+	Rep      int    `json:"repetition,omitempty"`
 }
 
 // c12Settle waits until the reader cannot make progress by itself: parked in
@@ -283,6 +284,127 @@ func c12CloseRun(c *Ctx, cs c12CloseCase) {
 			return
 		}
 		judge(fmt.Sprintf("channel %d", yid), y, ty, 0)
+	case "racing-close":
+		// a sender and a receiver use X while a third goroutine closes it
+		// and the peer keeps sending; the race detector watches, the
+		// oracle checks what the rest of the connection sees afterwards
+		rnd := rt.NewRand(c.Seed, fmt.Sprintf("c12/close/racing/%d", cs.Rep))
+		stop := make(chan struct{})
+		var wg sync.WaitGroup
+		var pmu sync.Mutex
+		var panicked *rt.PanicInfo
+		guard := func(f func()) {
+			defer wg.Done()
+			if pi := rt.Catch(f); pi != nil {
+				pmu.Lock()
+				panicked = pi
+				pmu.Unlock()
+			}
+		}
+		sizes := make([]int, 60)
+		for i := range sizes {
+			sizes[i] = rnd.Range(1, 1200)
+		}
+		wg.Add(3)
+		go guard(func() {
+			for _, n := range sizes {
+				if err := x.SendPackage(k.ctx, &tds.LanguagePackage{Cmd: strings.Repeat("q", n)}); err != nil {
+					return
+				}
+			}
+		})
+		go guard(func() {
+			for {
+				if _, err := x.NextPackage(k.ctx, true); err != nil && !strings.Contains(err.Error(), "invalid channel") {
+					return
+				}
+			}
+		})
+		go guard(func() {
+			for i := 0; i < 60; i++ {
+				select {
+				case <-stop:
+					return
+				default:
+				}
+				k.tr.Feed(xport.Packet(byte(tds.TDS_BUF_RESPONSE), byte(i%2), xid, srv.ReturnStatus(c12Tag(xid, 0, i))))
+			}
+		})
+		for i := rnd.Intn(20000); i > 0; i-- {
+			_ = i
+		}
+		okClose := closeX()
+		close(stop)
+		guardTimer := time.AfterFunc(30*time.Second, k.cancel)
+		wg.Wait()
+		guardTimer.Stop()
+		pmu.Lock()
+		pi := panicked
+		pmu.Unlock()
+		if pi != nil {
+			fail("panic/"+pi.Frame+"/racing-close", "a send or receive on the channel running concurrently with its Close panicked: "+pi.Value)
+			return
+		}
+		if !okClose {
+			return
+		}
+		// the packets that arrived for X after its Close are reported one
+		// by one; the error queue is bounded, so somebody has to take the
+		// reports for the reader to get on
+		for deadline := time.Now().Add(20 * time.Second); ; {
+			drainChannel(k.ch, k.ctx)
+			if st, ok := c12Settle(k.tr, 20*time.Millisecond); ok && st == "idle" {
+				break
+			}
+			if time.Now().After(deadline) {
+				if _, ok := settle("after-close"); !ok {
+					return
+				}
+				break
+			}
+		}
+		// the bytes written by sender and closer still parse as packets
+		var stream []byte
+		for _, w := range k.tr.Writes() {
+			stream = append(stream, w.Data...)
+		}
+		next := -1
+		for off := 0; off < len(stream); {
+			if len(stream)-off < 8 {
+				fail("outgoing/stream-does-not-parse-as-packets", fmt.Sprintf("%d stray bytes at the end of what the client wrote", len(stream)-off))
+				return
+			}
+			h, _ := xport.ParseHeader(stream[off:])
+			if int(h.Length) < 8 || off+int(h.Length) > len(stream) {
+				fail("outgoing/stream-does-not-parse-as-packets", fmt.Sprintf("packet at offset %d declares length %d (%d bytes follow)", off, h.Length, len(stream)-off))
+				return
+			}
+			if h.Channel == xid && tds.PacketHeaderType(h.Type) != tds.TDS_BUF_SETUP {
+				if next >= 0 && int(h.PacketNr) != next {
+					fail("outgoing/packet-number-not-consecutive", fmt.Sprintf("channel %d: packet number %d, expected %d (sender and Close running concurrently)", xid, h.PacketNr, next))
+					return
+				}
+				next = (int(h.PacketNr) + 1) % 256
+			}
+			off += int(h.Length)
+		}
+		py, ty := response(yid, 0, 2, true)
+		k.tr.Feed(py...)
+		if _, ok := settle("after-close"); !ok {
+			return
+		}
+		dy := drainChannel(y, k.ctx)
+		got, _, other := tagsOf(dy)
+		drainChannel(k.ch, k.ctx)
+		if len(other) > 0 {
+			fail("close/unexpected-error", fmt.Sprintf("connection errors other than 'invalid channel': %.400v", other))
+			return
+		}
+		if fmt.Sprint(got) != fmt.Sprint(ty) {
+			fail("routing/lost-or-duplicated/after-close", fmt.Sprintf("channel %d received tags %v, the peer sent %v after channel %d had been closed under load", yid, got, ty, xid))
+			return
+		}
+		r.Count("close_racing_runs", 1)
 	case "reuse":
 		px, _ := response(xid, 0, 2, true)
 		k.tr.Feed(px...)
@@ -353,6 +475,13 @@ func c12CloseCases(c *Ctx) []c12CloseCase {
 	}
 	for _, n := range []int{2, 4} {
 		out = append(out, c12CloseCase{Family: "close", Kind: "reuse", Channels: n, Queue: 16})
+	}
+	reps := 24
+	if !c.Quick() {
+		reps = 640
+	}
+	for i := 0; i < reps; i++ {
+		out = append(out, c12CloseCase{Family: "close", Kind: "racing-close", Channels: 2, Queue: []int{2, 16, 256}[i%3], Rep: i})
 	}
 	return out
 }
